@@ -152,9 +152,13 @@ def switch_fn(
             # No need to touch next_val_is_default, v is guaranteed
             defval = v
         last = None
+    if last is not None:
+        # A final item without "=" is the default, whatever "#default=..."
+        # said before it.
+        return last
     if defval is not None:
         return expander(defval).strip()
-    return last or ""
+    return ""
 
 
 def categorytree_fn(
